@@ -149,3 +149,41 @@ func C18_Keys() {
 			types.GetRequestContextKey(id1)[0] != types.GetExpiredRequestBatchKey(id1, h1)[0]), "families-have-distinct-prefix-bytes")
 	}
 }
+
+// C18: one key of each of the 19 record families, built by its own builder: no two families share their first
+// byte (so no key of one family can coincide with, or be scanned under a prefix of, a key of another), and each
+// sub-space prefix carries the first byte of the family it scans.
+func C18_Families() {
+	n := name("n", 1+vf.Choice("len", 2))
+	p, o := sdk.AccAddress(vf.Bytes("p", 20)), sdk.AccAddress(vf.Bytes("o", 20))
+	id := vf.Bytes("id", 40)
+	h, b := vf.Int64("h"), vf.Uint64("b")
+	r := types.GenerateRequestID(id, b, h, vf.Int16("i"))
+	keys := [][]byte{
+		types.GetServiceDefinitionKey(n), types.GetServiceBindingKey(n, p), types.GetOwnerServiceBindingKey(o, n, p),
+		types.GetOwnerKey(p), types.GetOwnerProviderKey(o, p), types.GetPricingKey(n, p), types.GetWithdrawAddrKey(o),
+		types.GetRequestContextKey(id), types.GetExpiredRequestBatchKey(id, h), types.GetNewRequestBatchKey(id, h),
+		types.GetExpiredRequestBatchHeightKey(id), types.GetNewRequestBatchHeightKey(id), types.GetRequestKey(r),
+		types.GetActiveRequestKey(n, p, h, r), types.GetActiveRequestKeyByID(r), types.GetResponseKey(r),
+		types.GetRequestVolumeKey(o, n, p), types.GetEarnedFeesKey(p, Denom), types.GetOwnerEarnedFeesKey(o, Denom),
+	}
+	ok := true
+	for i := range keys {
+		for j := 0; j < i; j++ {
+			ok = vf.And(ok, keys[i][0] != keys[j][0])
+		}
+	}
+	vf.Assert(ok, "all-19-families-have-distinct-first-bytes")
+	subs := [][2][]byte{
+		{types.GetBindingsSubspace(n), keys[1]}, {types.GetOwnerBindingsSubspace(o, n), keys[2]}, {types.GetOwnerProvidersSubspace(o), keys[4]},
+		{types.GetExpiredRequestBatchSubspace(h), keys[8]}, {types.GetNewRequestBatchSubspace(h), keys[9]},
+		{types.GetRequestSubspaceByReqCtx(id, b), keys[12]}, {types.GetActiveRequestSubspace(n, p), keys[13]},
+		{types.GetActiveRequestSubspaceByReqCtx(id, b), keys[14]}, {types.GetResponseSubspaceByReqCtx(id, b), keys[15]},
+		{types.GetEarnedFeesSubspace(p), keys[17]}, {types.GetOwnerEarnedFeesSubspace(o), keys[18]},
+	}
+	ok = true
+	for _, s := range subs {
+		ok = vf.And(ok, bytes.HasPrefix(s[1], s[0]))
+	}
+	vf.Assert(ok, "each-subspace-prefix-scans-its-own-family-and-subject")
+}
